@@ -91,6 +91,9 @@ def rewrite_mark_tensor_purpose(op, arch):
             scratch_tensor = op.inputs[2]  # should be existing scratch tensor
             if scratch_tensor.name.endswith("_scratch"):
                 scratch_tensor.purpose = TensorPurpose.Scratch
+                # the generic marking above has put it into permanent storage (it has no producer): it is the tensor arena
+                scratch_tensor.mem_area = arch.tensor_storage_mem_area[TensorPurpose.Scratch]
+                scratch_tensor.mem_type = arch.tensor_storage_mem_type[TensorPurpose.Scratch]
 
         if len(op.inputs) >= 4:
             scratch_fast_tensor = op.inputs[3]  # should be existing scratch fast tensor
